@@ -190,3 +190,106 @@ fn field(s: &str, key: &str) -> Option<u64> {
     let p = s.find(key)? + key.len();
     s[p..].split(' ').next()?.parse().ok()
 }
+
+// ---------------------------------------------------------------- dynamic ⊆ static call edges
+thread_local! {
+    static SAMPLES: std::cell::RefCell<Vec<Vec<String>>> = const { std::cell::RefCell::new(Vec::new()) };
+}
+
+fn frame_to_node(sym: &str) -> Option<String> {
+    // strip generic arguments and closure suffixes
+    let mut s = sym.trim().to_string();
+    while let Some(p) = s.find("::{{closure}}") { s.replace_range(p..p + "::{{closure}}".len(), ""); }
+    while let Some(p) = s.find("::{closure") { let e = s[p..].find('}').map(|e| p + e + 1).unwrap_or(s.len()); s.replace_range(p..e, ""); }
+    // drop `::<…>` generic instantiations
+    loop {
+        match s.find("::<") {
+            Some(p) => {
+                let mut depth = 0; let mut e = p + 2;
+                for (i, ch) in s[p + 2..].char_indices() { if ch == '<' { depth += 1 } else if ch == '>' { depth -= 1; if depth == 0 { e = p + 2 + i + 1; break; } } }
+                s.replace_range(p..e, "");
+            }
+            None => break,
+        }
+    }
+    if let Some(rest) = s.strip_prefix("sqlparser::parser::Parser::") { return Some(format!("Parser::{}", rest.split("::").next().unwrap_or(rest))); }
+    if let Some(rest) = s.strip_prefix("sqlparser::parser::alter::<impl sqlparser::parser::Parser>::") { return Some(format!("Parser::{}", rest.split("::").next().unwrap_or(rest))); }
+    if s.starts_with('<') && s.contains(" as sqlparser::dialect::Dialect>::") {
+        let ty = s[1..].split(" as ").next()?.rsplit("::").next()?.to_string();
+        let name = s.rsplit(">::").next()?.split("::").next()?.to_string();
+        return Some(format!("{ty} as Dialect::{name}"));
+    }
+    if let Some(rest) = s.strip_prefix("sqlparser::dialect::Dialect::") { return Some(format!("trait Dialect::{}", rest.split("::").next().unwrap_or(rest))); }
+    if let Some(rest) = s.strip_prefix("sqlparser::dialect::") {
+        let parts: Vec<&str> = rest.split("::").collect();
+        if parts.len() == 2 { return Some(format!("free:dialect_{}::{}", parts[0], parts[1])); }
+    }
+    None
+}
+
+fn sampler() {
+    let bt = std::backtrace::Backtrace::force_capture().to_string();
+    let mut frames = vec![];
+    for line in bt.lines() {
+        let l = line.trim();
+        // lines look like `12: sqlparser::parser::Parser::parse_query`
+        if let Some(p) = l.find(": ") {
+            if l[..p].chars().all(|c| c.is_ascii_digit()) {
+                if let Some(n) = frame_to_node(&l[p + 2..]) { if frames.last() != Some(&n) { frames.push(n); } }
+            }
+        }
+    }
+    SAMPLES.with(|s| s.borrow_mut().push(frames));
+}
+
+pub fn dyn_edges(c: &Corpus, tier: &str) -> Report {
+    let mut r = Report::new("C03", "oracle.dyn-edges", "call stacks sampled (hook: every N cursor steps) while parsing every accepted corpus (text, dialect) pair: after removing the frames of the higher-order helpers (transparent in the static graph) each pair of adjacent parser/dialect frames (outer, inner) must be connected in the call graph extracted by the translator by a path of at most 6 edges (intermediate functions may be inlined in the release build); a missing connection means the static graph, on which the C03 certificate is checked, misses a call. non-trivial = distinct dynamic (outer, inner) pairs");
+    let cg: serde_json::Value = match std::fs::read_to_string(format!("{}/callgraph.json", gen_dir())).ok().and_then(|t| serde_json::from_str(&t).ok()) { Some(v) => v, None => { r.fail("callgraph/unreadable".into(), "-", Opts::DEFAULT, "", String::new()); return r; } };
+    let nodes: std::collections::BTreeSet<String> = cg["nodes"].as_array().unwrap().iter().map(|x| x.as_str().unwrap().to_string()).collect();
+    let ho: std::collections::BTreeSet<String> = cg["ho_helpers"].as_array().map(|a| a.iter().map(|x| x.as_str().unwrap().to_string()).collect()).unwrap_or_default();
+    let mut adj: std::collections::BTreeMap<String, Vec<String>> = Default::default();
+    for e in cg["edges"].as_array().unwrap() { adj.entry(e[0].as_str().unwrap().to_string()).or_default().push(e[1].as_str().unwrap().to_string()); }
+    let reach = |a: &str, b: &str| -> bool {
+        let mut frontier = vec![a.to_string()];
+        let mut seen: std::collections::BTreeSet<String> = Default::default();
+        for _ in 0..6 {
+            let mut next = vec![];
+            for x in &frontier { for y in adj.get(x).map(|v| v.as_slice()).unwrap_or(&[]) { if y == b { return true; } if seen.insert(y.clone()) { next.push(y.clone()); } } }
+            frontier = next;
+        }
+        false
+    };
+    let ds = all_dialects();
+    let every = if tier == "thorough" { 13 } else { 101 };
+    let mut pairs: std::collections::BTreeMap<(String, String), String> = Default::default();
+    sqlparser::parser::verif_hooks::reset(u64::MAX);
+    sqlparser::parser::verif_hooks::set_sampler(every, Some(sampler));
+    for &(i, k) in &c.accepted {
+        let s = &c.literals[i];
+        let _ = parse(ds[k].1.as_ref(), Opts::DEFAULT, s);
+        let got: Vec<Vec<String>> = SAMPLES.with(|x| std::mem::take(&mut *x.borrow_mut()));
+        for frames in got {
+            r.evaluations += 1;
+            // higher-order helpers (parse_comma_separated, maybe_parse, …) are transparent in the
+            // static graph: drop their frames; frames are innermost first
+            let frames: Vec<String> = frames.into_iter().filter(|f| !ho.contains(f)).collect();
+            let mut dedup: Vec<String> = vec![];
+            for f in frames { if dedup.last() != Some(&f) { dedup.push(f); } }
+            let frames = dedup;
+            for w in frames.windows(2) {
+                let (inner, outer) = (&w[0], &w[1]);
+                pairs.entry((outer.clone(), inner.clone())).or_insert_with(|| format!("{}: {}", ds[k].0, trunc(s, 120)));
+            }
+        }
+    }
+    sqlparser::parser::verif_hooks::set_sampler(0, None);
+    for ((outer, inner), wit) in &pairs {
+        if !nodes.contains(outer) { r.count("frame-not-a-node"); r.fail(format!("callgraph/unknown-function/{outer}"), "-", Opts::DEFAULT, wit, format!("frame {outer} is not a node of the extracted graph")); continue; }
+        if !nodes.contains(inner) { r.fail(format!("callgraph/unknown-function/{inner}"), "-", Opts::DEFAULT, wit, format!("frame {inner} is not a node of the extracted graph")); continue; }
+        if outer == inner { continue; }
+        if !reach(outer, inner) { r.fail(format!("callgraph/missing-edge/{outer}->{inner}"), "-", Opts::DEFAULT, wit, "no static path of length <= 6".into()); }
+    }
+    r.distinct_nontrivial = pairs.len() as u64;
+    for (p, w) in pairs.iter().take(3) { r.sample(serde_json::json!({"outer": p.0, "inner": p.1, "seen_in": w})); }
+    r
+}
